@@ -410,6 +410,8 @@ def rule_helpers(rep: Report, repo: Repo, sections=None, nonhermitian: bool = Tr
     if sections is None or "is_diagonal" in sections:
         # -- linalg.is_diagonal [dense]: EVERY off-diagonal entry is inspected ------------------------------------------------
         fd = repo.find("linalg::is_diagonal", R)
+        if any(isinstance(c_, ast.Call) and isinstance(c_.func, ast.Name) and c_.func.id.startswith("_") for c_ in ast.walk(fd)):
+            fd = repo.find_expanded("linalg::is_diagonal", R)  # the dense branch may have moved into a private helper
         dense = [s_ for s_ in fd.body if isinstance(s_, ast.If) and norm(s_.test) in ("isinstance(A, np.ndarray)",)]
         if len(dense) != 1:
             raise AnalysisError(R, "is_diagonal: dense branch not found")
